@@ -450,6 +450,18 @@ pub fn check_step(cx: &StepCtx) -> Vec<Violation> {
                 out.push(v("C14", "claimable-above-recorded", format!("{}: Σ accrued {} > prev_reward_balance {}", kind, sum_acc, post.rw.2)));
             }
         }
+        // completeness: recorded − Σ accrued grows by at most rounding dust per step
+        {
+            let acc = |s: &Snap| -> Option<u128> { s.accrued.values().try_fold(0u128, |a, x| x.map(|v| a + v)) };
+            if let (Some(a0), Some(a1)) = (acc(pre), acc(post)) {
+                let st0 = pre.rw.2.saturating_sub(a0);
+                let st1 = post.rw.2.saturating_sub(a1);
+                let holders = post.holders.len().max(pre.holders.len()) as u128;
+                if st1 > st0 + holders + 2 && !is_env(op) {
+                    out.push(v("C14", "rewards-stranded", format!("{}: recorded balance minus Σ accrued grew {} → {} ({} holders)", kind, st0, st1, holders)));
+                }
+            }
+        }
         if post.rw.2 > post.reward_bank {
             out.push(v("C14", "recorded-above-bank", format!("{}: prev_reward_balance {} > bank balance {}", kind, post.rw.2, post.reward_bank)));
         }
